@@ -31,8 +31,9 @@ LEAN_MODULES = ["KmipModel.Props.C18"]
 RULE = ("histories: ALL sequences over the event alphabet {write S (add/edit/repair; S = set of policy names the "
         "file defines, every write carries fresh definitions), break (bad JSON / unknown operation, section, "
         "permission, object type), remove, touch} x 3 files x 3 overlapping names: 21 letters to depth 4 and 10 "
-        "letters to depth 5 with a scan after every event, 15 letters to depth 2 with two events per scan "
-        "(thorough: depth 5 / 6 / 3), then seeded random histories (4 files, reserved names, documents that crash "
+        "letters to depth 5 with a scan after every event, 15 letters to depth 2 with two events per scan, 8 letters "
+        "including documents that crash the parser to depth 4 (thorough: 21 letters to depth 5, 10 letters to depth 6, "
+        "two events per scan over 21 letters to depth 2 and over 10 letters to depth 3, crash alphabet to depth 5), then seeded random histories (4 files, reserved names, documents that crash "
         "the parser, 1-3 events per scan, 6-12 scans); no-op events (remove/touch of an absent file) are pruned. "
         "documents: every documented shape (preset, groups, both, object types at top level, several policies, empty "
         "bodies, every object type / operation / permission) and, for each of them, every single mutation: each node "
@@ -310,7 +311,11 @@ ALPHA_PAIR = (
     [W(0, "p"), W(0, "q"), W(0, ""), L(0, "brk"), L(0, "rm")] +
     [W(1, "p"), W(1, "pr"), L(1, "brk"), L(1, "rm"), L(1, "tch")] +
     [W(2, "pq"), W(2, "r"), W(2, ""), L(2, "rm"), L(2, "tch")])
-ALPHABETS = {"full": ALPHA_FULL, "deep": ALPHA_DEEP, "pair": ALPHA_PAIR}
+ALPHA_CRASH = (
+    [W(0, "p"), L(0, "crs"), L(0, "rm")] +
+    [W(1, "p"), W(1, "pr"), L(1, "crs")] +
+    [W(2, "pq"), L(2, "tch")])
+ALPHABETS = {"full": ALPHA_FULL, "deep": ALPHA_DEEP, "pair": ALPHA_PAIR, "crash": ALPHA_CRASH}
 
 
 def realize(letters, eps):
@@ -551,7 +556,7 @@ def check_histories(histories, with_model=True):
                     res["fails"][sig] = {"count": 1, "what": what, "replay": rep}
                 else:
                     e["count"] += 1
-                    if len(steps[:i + 1]) < len(e["replay"]["steps"]):
+                    if replay_size(rep) < replay_size(e["replay"]):
                         e["what"], e["replay"] = what, rep
         if im.builtin_mutated:
             res["fails"]["c18:reserved-policy-changed"] = {
@@ -805,7 +810,7 @@ def check_documents(texts, with_model=True):
                     res["fails"][sig] = {"count": 1, "what": what, "replay": rep}
                 else:
                     e["count"] += 1
-                    if len(t) < len(e["replay"]["text"]):
+                    if replay_size(rep) < replay_size(e["replay"]):
                         e["what"], e["replay"] = what, rep
     finally:
         IM.cleanup_read_dir()
@@ -852,7 +857,12 @@ def plan(ctx, with_model=True, more=1):
     tasks = []
     tasks += family_tasks("single-event depth %d, 21 letters" % (4 if quick else 5), "full", 1, 4 if quick else 5, 64 if quick else 441, with_model)
     tasks += family_tasks("single-event depth %d, 10 letters" % (5 if quick else 6), "deep", 1, 5 if quick else 6, 48 if quick else 100, with_model)
-    tasks += family_tasks("two events per scan, depth %d, 15 letters" % (2 if quick else 3), "pair", 2, 2 if quick else 3, 32 if quick else 225, with_model)
+    tasks += family_tasks("two events per scan, depth 2, 15 letters", "pair", 2, 2, 32, with_model)
+    if not quick:
+        tasks += family_tasks("two events per scan, depth 2, 21 letters", "full", 2, 2, 128, with_model)
+        tasks += family_tasks("two events per scan, depth 3, 10 letters", "deep", 2, 3, 100, with_model)
+    tasks += family_tasks("with documents that crash the parser, depth %d, 8 letters" % (4 if quick else 5), "crash", 1,
+                          4 if quick else 5, 16 if quick else 64, with_model)
     nrand = (2400 if quick else 120000) * more
     per = 150 if quick else 1000
     seeds = [ctx.seed * 1000003 + i for i in range(nrand)]
@@ -867,6 +877,14 @@ def plan(ctx, with_model=True, more=1):
     return tasks, counts
 
 
+def replay_size(r):
+    """smaller = better to show: histories (fewest events, then shortest texts) before documents"""
+    if r.get("kind") == "history":
+        evs = [ev for st in r["steps"] for ev in st]
+        return (0, len(evs), sum(len(ev[2]) for ev in evs if len(ev) > 2), json.dumps(r["steps"]))
+    return (1, len(r.get("text", "")), 0, r.get("text", ""))
+
+
 def merge_fails(dst, src):
     for sig, e in src.items():
         d = dst.get(sig)
@@ -875,8 +893,7 @@ def merge_fails(dst, src):
         else:
             d["count"] += e["count"]
             a, b = e["replay"], d["replay"]
-            size = (lambda r: len(r["steps"]) if r.get("kind") == "history" else len(r.get("text", "")))
-            if size(a) < size(b) or (size(a) == size(b) and json.dumps(a, sort_keys=True) < json.dumps(b, sort_keys=True)):
+            if replay_size(a) < replay_size(b):
                 d["what"], d["replay"] = e["what"], e["replay"]
 
 
